@@ -781,3 +781,57 @@ def investigation_rule(repo, rep):
     ok = ok and "ifuisnotNone" in t and "T.add_edge(u,v,time=t)" in t
     rep.ob("INV", ok, "transmission_tree: one edge source->target per sourced record", func=tt, node=tt.node, construct="transmission_tree body",
            detail="" if ok else "tree construction changed")
+
+
+def full_data_handoff(repo, rep):
+    rep.rule("HANDOFF", "full-data hand-off: histories are built only from events that were executed (scheduled-but-unexecuted "
+                        "times are filtered by the final status), and _transform_to_node_history_ receives (infection times, "
+                        "recovery times, tmin) in that order with SIR matching the simulator")
+    sites, _ = sites_of(repo)
+    f = repo.f("fast_nonMarkov_SIR")
+    rep.analysed(f)
+    want = {"pred_inf_time": ("infection_times", ("status[node]!='S'", "status[node]in('I','R')", "status[node]in['I','R']")),
+            "rec_time": ("recovery_times", ("status[node]=='R'",))}
+    found = {}
+    for n in own_nodes(f.node):
+        if isinstance(n, ast.Assign) and isinstance(n.value, ast.DictComp) and isinstance(n.targets[0], ast.Name):
+            g = n.value.generators[0]
+            src = _k(g.iter).replace(".items()", "")
+            if src in want and isinstance(g.target, ast.Tuple):
+                nodev, timev = [_k(e) for e in g.target.elts]
+                flt = [_k(c).replace(nodev, "node").replace('"', "'") for c in g.ifs]
+                okv = _k(n.value.key) == nodev and _k(n.value.value) == timev
+                found[src] = (n, n.targets[0].id, flt, okv)
+    for src, (name, filters) in want.items():
+        got = found.get(src)
+        ok = got is not None and got[1] == name and got[3] and len(got[2]) == 1 and got[2][0] in filters
+        rep.ob("HANDOFF", ok, "fast_nonMarkov_SIR: %s keeps a scheduled time only if the event happened (%s)" % (name, filters[0]),
+               func=f, node=got[0] if got else f.node, construct="%s from %s filtered by %s" % (name, src, got[2] if got else None),
+               detail="" if ok else "%s is not {node: time for node, time in %s.items() if %s}: times of events that never ran would "
+               "enter the node histories" % (name, src, filters[0]))
+    for fname, sir in (("fast_nonMarkov_SIR", True), ("Gillespie_SIR", True), ("fast_SIS", False), ("fast_nonMarkov_SIS", False),
+                       ("Gillespie_SIS", False)):
+        g = repo.f(fname)
+        rep.analysed(g)
+        ss = [s for s in sites if s.caller is g and isinstance(s.callee, Func) and s.callee.name == "_transform_to_node_history_"]
+        ok = len(ss) == 1 and not ss[0].error
+        if ok:
+            b = ss[0].binding
+            sv = b.get("SIR")
+            sval = sv.value if isinstance(sv, ast.Constant) else (True if sv is None else None)
+            ok = _k(b.get("infection_times")) == "infection_times" and _k(b.get("recovery_times")) == "recovery_times" \
+                and _k(b.get("tmin")) == "tmin" and sval is sir
+        rep.ob("HANDOFF", ok, "%s: node histories = _transform_to_node_history_(infection_times, recovery_times, tmin, SIR=%s)" % (fname, sir),
+               func=g, node=ss[0].node if ss else g.node,
+               construct="%s hand-off %s" % (fname, sorted((k, _k(v)) for k, v in ss[0].binding.items() if isinstance(v, ast.AST)) if ss else None),
+               detail="" if ok else "arguments of the history reconstruction are crossed or the SIR flag does not match the simulator")
+    # Gillespie_SIR keeps the single infection / recovery time of each node
+    g = repo.f("Gillespie_SIR")
+    for nm in ("infection_times", "recovery_times"):
+        d = [n for n in own_nodes(g.node) if isinstance(n, ast.Assign) and _k(n.targets[0]) == nm and isinstance(n.value, ast.DictComp)]
+        ok = len(d) == 1 and _k(d[0].value.generators[0].iter) == "%s.items()" % nm and not d[0].value.generators[0].ifs
+        if ok:
+            kk, vv = [_k(e) for e in d[0].value.generators[0].target.elts]
+            ok = _k(d[0].value.key) == kk and _k(d[0].value.value) == "%s[0]" % vv
+        rep.ob("HANDOFF", ok, "Gillespie_SIR: %s maps every node to the time of its (only) such event" % nm, func=g, node=d[0] if d else g.node,
+               construct="%s conversion" % nm, detail="" if ok else "conversion of %s changed" % nm)
